@@ -1095,6 +1095,12 @@ HLPread(accrec_t *access_rec, int32 length, void *datap)
     if (access_rec->posn + length > info->length)
         length = info->length - access_rec->posn;
 
+    /* nothing to read at or beyond the end of the element; a zero length
+       handed down to Hread would mean "the rest of the block" and overrun
+       the caller's buffer */
+    if (length <= 0)
+        HGOTO_DONE(0);
+
     /* search for linked block to start reading from */
     if (relative_posn < info->first_length) { /* first block */
         block_idx      = 0;
